@@ -2,6 +2,8 @@
 import json, os, sys, time, re, shutil, tempfile, subprocess, hashlib
 
 VERIF = os.path.dirname(os.path.dirname(os.path.abspath(__file__)))
+# evidence goes to /verif/evidence; runs against deliberately changed trees (lib/seedrun_all.sh) redirect it
+EVIDENCE = os.environ.get("VERIF_EVIDENCE_DIR") or os.path.join(VERIF, "evidence")
 REPO = os.environ.get("VERIF_REPO", "/repo")
 GOENV = dict(os.environ, GOFLAGS="-mod=mod", GOPROXY="off", GOSUMDB="off", GOTOOLCHAIN="local")
 NPROC = int(os.environ.get("VERIF_JOBS", "0")) or (os.cpu_count() or 4)
@@ -58,13 +60,13 @@ def load_known(pid):
 
 
 def write_evidence(ctx, level, coverage, nviol):
-    os.makedirs(os.path.join(VERIF, "evidence"), exist_ok=True)
+    os.makedirs(EVIDENCE, exist_ok=True)
     ev = {
         "property_id": ctx.pid, "tier": ctx.tier, "seed": ctx.seed, "level": level,
         "coverage": coverage, "assumptions": ctx.assumptions,
         "wall_s": round(time.time() - ctx.t0, 2), "violations": nviol,
     }
-    path = os.path.join(VERIF, "evidence", ctx.pid + ".json")
+    path = os.path.join(EVIDENCE, ctx.pid + ".json")
     tmp = path + ".tmp"
     with open(tmp, "w") as f:
         json.dump(ev, f, indent=1, sort_keys=True)
@@ -74,7 +76,7 @@ def write_evidence(ctx, level, coverage, nviol):
 
 def finish(ctx, level, coverage):
     """Report violations (known vs new), write replay files and evidence, return exit code."""
-    rdir = os.path.join(VERIF, "evidence", "replays")
+    rdir = os.path.join(EVIDENCE, "replays")
     new = []
     for v in ctx.violations:
         if v["key"] in ctx.known:
